@@ -31,7 +31,7 @@ pub fn relpath() -> Report {
 
 // ------------------------------------------------------------------ C18
 pub fn discover() -> Report {
-    let bound = "large texts (5 000 / 9 000 / 70 000 bytes in lines of 40 / 8 190 / 8 192 bytes) with the comment on the first / a middle / the last line / twice / absent, via slice and reader; texts of <= 4 lines drawn from {code, both comment forms, indented / mid-line look-alikes, empty URL}, \\n and \\r\\n endings, with/without final newline; data URLs of maps with 0..2 tokens, placed in a comment and rediscovered; detection (slice and reader) on the serialisation of regular maps (3 sources, every contents subset incl. null entries, names, root, ignore list, range token on/off), index maps over them with an unresolved section, Hermes maps with null / partial metadata and contents";
+    let bound = "large texts (5 000 / 9 000 / 70 000 bytes in lines of 40 / 8 190 / 8 192 bytes) with the comment on the first / a middle / the last line / twice / absent, via slice and reader; texts of <= 4 lines drawn from {code, both comment forms, indented / mid-line look-alikes, empty URL}, \\n and \\r\\n endings, with/without final newline, each through the slice locator, the reader locator and SourceView::sourcemap_reference; data URLs of maps with 0..2 tokens, placed in a comment and rediscovered; detection (slice and reader) on the serialisation of regular maps (3 sources, every contents subset incl. null entries, names, root, ignore list, range token on/off), index maps over them with an unresolved section, Hermes maps with null / partial metadata and contents";
     let mut cases = 0u64;
     let lines: Vec<(&str, Option<(&str, bool)>)> = vec![
         ("var a = 1;", None), ("//# sourceMappingURL=foo.js.map", Some(("foo.js.map", false))), ("//@ sourceMappingURL=old.map  ", Some(("old.map", true))),
@@ -47,6 +47,13 @@ pub fn discover() -> Report {
         let g2 = got.as_ref().map(|x| match x { SourceMapRef::Ref(u) => (u.as_str(), false), SourceMapRef::LegacyRef(u) => (u.as_str(), true) });
         crate::witness(want.is_some());
         if g2 != want { return r("discover", bound, cases, Some(format!("text {s:?}: discovered {g2:?}, the first line beginning with a sourceMappingURL comment gives {want:?}"))); }
+        // the same through a SourceView and through the reader variant
+        let gv = match guarded(|| SourceView::new(s.as_str().into()).sourcemap_reference()) { Ok(Ok(g)) => g, o => return r("discover", bound, cases, Some(format!("SourceView::sourcemap_reference on {s:?} = {:?}", o.map(|x| x.map(|_| ()))))) };
+        let gv2 = gv.as_ref().map(|x| match x { SourceMapRef::Ref(u) => (u.as_str(), false), SourceMapRef::LegacyRef(u) => (u.as_str(), true) });
+        if gv2 != want { return r("discover", bound, cases, Some(format!("text {s:?}: SourceView::sourcemap_reference discovered {gv2:?}, the first line beginning with a sourceMappingURL comment gives {want:?}"))); }
+        let gr = match guarded(|| sourcemap::locate_sourcemap_reference(s.as_bytes())) { Ok(Ok(g)) => g, o => return r("discover", bound, cases, Some(format!("locate_sourcemap_reference (reader) on {s:?} = {:?}", o.map(|x| x.map(|_| ()))))) };
+        let gr2 = gr.as_ref().map(|x| match x { SourceMapRef::Ref(u) => (u.as_str(), false), SourceMapRef::LegacyRef(u) => (u.as_str(), true) });
+        if gr2 != want { return r("discover", bound, cases, Some(format!("text {s:?}: locate_sourcemap_reference (reader) discovered {gr2:?}, expected {want:?}"))); }
     } } }
     // large files: the comment on the first / a middle / the last line of a text of 5 000 .. 70 000 bytes (beyond any read-buffer or "tail" size), two comments (the first wins),
     // through the slice and the reader entry point
@@ -205,7 +212,7 @@ fn text_at(line: &str, col: u32) -> Option<&str> {
     line[off..].split_whitespace().next().and_then(ident)
 }
 pub fn function_name() -> Report {
-    let bound = "10 minified programs (several functions per line, two lines, non-ASCII / astral characters before and inside identifiers, names that are prefixes of one another, a joiner directly after `function`, the same function name declared twice), tokens every 1 / 2 / 3 / 5 UTF-16 columns plus every word start, and on word starts only (so that `function NAME` token pairs exist) (and past the end; never inside a surrogate pair), all tokens named or every 2nd / 3rd / 4th one without a name, names starting with / consisting of '_' and '$' or starting with a joiner, identifiers continued by a combining mark / non-ASCII digit / U+203F, every start token x 33 candidate names; the two-line programs again as index maps with one section per line; one 140-token line for the 128-token window";
+    let bound = "10 minified programs (several functions per line, two lines, non-ASCII / astral characters before and inside identifiers, names that are prefixes of one another, a joiner directly after `function`, the same function name declared twice), tokens every 1 / 2 / 3 / 5 UTF-16 columns plus every word start, and on word starts only (so that `function NAME` token pairs exist) (and past the end; never inside a surrogate pair), all tokens named or every 2nd / 3rd / 4th one without a name, names starting with / consisting of '_' and '$' or starting with a joiner, identifiers continued by a combining mark / non-ASCII digit / U+203F, every start token x 33 candidate names, through the token and through positions (on the token, one column after it, on the line after the last token); the two-line programs again as index maps with one section per line; one 140-token line for the 128-token window";
     let mut cases = 0u64;
     let programs: Vec<Vec<&str>> = vec![
         vec!["function fn1(){} var é2=function g(){}", "function fn(){}function fn1 (){}"],
@@ -254,6 +261,13 @@ pub fn function_name() -> Report {
                 cases += 1;
                 let got2 = match guarded(|| sm.get_original_function_name(ql, qc, name, &sv).map(|s| s.to_string())) { Ok(g) => g, Err(p) => return r("function_name", bound, cases, Some(format!("program {prog:?}: SourceMap::get_original_function_name({ql}, {qc}, {name:?}): {p}"))) };
                 if got2 != want { return r("function_name", bound, cases, Some(format!("program {prog:?}, tokens every {stride} columns: SourceMap::get_original_function_name({ql}, {qc}, {name:?}) gives {got2:?}, but walking back from the token looked up there (#{start} at {:?}) the first `function {name}` pair gives {want:?}", pos[start]))); }
+            }
+            // a position on a LATER line than the last token (a line without tokens of its own) resolves through the closest preceding token all the same
+            if start + 1 == pos.len() {
+                cases += 1;
+                let (ql, qc) = (pos[start].0 + 1, 0u32);
+                let got3 = match guarded(|| sm.get_original_function_name(ql, qc, name, &sv).map(|s| s.to_string())) { Ok(g) => g, Err(p) => return r("function_name", bound, cases, Some(format!("program {prog:?}: SourceMap::get_original_function_name({ql}, {qc}, {name:?}): {p}"))) };
+                if got3 != want { return r("function_name", bound, cases, Some(format!("program {prog:?}, tokens every {stride} columns: SourceMap::get_original_function_name({ql}, {qc}, {name:?}) -- a position on the line after the last token -- gives {got3:?}, but the closest preceding token is #{start} at {:?} and walking back from it gives {want:?}", pos[start]))); }
             }
         } }
         }
